@@ -396,7 +396,7 @@ func (fr *Frame) contractCall(b *ssa.BasicBlock, st *State, callee *ssa.Function
 	// a result that the callee's contract unconditionally calls fresh, of a callee that modifies nothing, is
 	// referenced from no heap location: it is as local as an object allocated here (only for targets without
 	// reference-typed fields, which cannot point back to themselves)
-	if c.ModGiven && len(c.Modifies) == 0 && (extraGuard == "" || extraGuard == "true") && activeLogs[fc] == nil {
+	if c.ModGiven && len(c.Modifies) == 0 && (extraGuard == "" || extraGuard == "true") && len(activeLogs[fc]) == 0 {
 		for _, en := range c.Ensures {
 			for _, name := range topLevelFresh(en.E) {
 				if v, ok := renv[name]; ok && !v.IsAg && v.Typ != nil && plainTarget(v.Typ) {
@@ -576,13 +576,18 @@ func (fr *Frame) modTargets(m ModLoc, env *SpecEnv) []modTarget {
 				}
 			}
 			return out
-		case "onlyfresh":
+		case "onlyfresh", "funcfresh":
 			// onlyfresh("substr"): in heaps whose name contains substr only objects allocated later are written
+			// funcfresh("substr") (loop frames): only objects allocated since the FUNCTION was entered are written
 			if id, ok := e.Args[0].(*EStr); ok {
+				kind := "none"
+				if e.Fn == "funcfresh" {
+					kind = "nonefn"
+				}
 				var out []modTarget
 				for _, name := range sortedKeys(fc.varSort) {
 					if strings.Contains(name, id.V) && name != hAlloc {
-						out = append(out, modTarget{"none", name, fc.varSort[name], ""})
+						out = append(out, modTarget{kind, name, fc.varSort[name], ""})
 					}
 				}
 				return out
